@@ -389,6 +389,17 @@ def _target_values_stay_as_given(col, rule="C09.R11"):
         raise AnalysisError("MeritFunctionForMatch.__call__: where a reference-valued target value is read is not recognised -- cannot decide")
     col.ok(rule, "MeritFunctionForMatch.__call__#reference-target-values-read-now", mx.loc(live[0]),
            "a reference-valued target is read (`.value._value`) at each evaluation", "")
+    # ... and at the point being evaluated: after the knobs were written and the actions ran (a reference-valued target may depend on a knob)
+    runs = [ev.nid for ev in mx.of_kind("call") if S.is_call_of(ev.term, meth="run") and not ev.term[2]]
+    if not runs:
+        raise AnalysisError("MeritFunctionForMatch.__call__: the call that runs the actions is not recognised -- cannot decide")
+    # the loop (or comprehension statement) that runs them may have no iteration: what must lie before the read is that loop itself
+    heads = [nid for nid, nd in mx.cfg.nodes.items() if nd.kind == "for" and nd.ast is not None
+             and any(mx.cfg.node_of(c_) in runs for st_ in getattr(nd.ast, "body", []) for c_ in ast.walk(st_) if mx.cfg.node_of(c_) is not None)]
+    early = [ev for ev in live if not mx.cfg.must_pass(mx.cfg.ENTRY, ev.nid, heads or runs)]
+    col.add(rule, "MeritFunctionForMatch.__call__#reference-target-values-read-after-the-actions", not early, mx.loc(early[0] if early else live[0]),
+            "the values to be matched are read after the knobs were set and the actions ran (they belong to the point being evaluated)",
+            "read on a path that has not run the actions yet" if early else "", positive=bool(early))
 
 
 def check(col: Collector):
